@@ -471,6 +471,9 @@ def run(ctx):
                 else:
                     ck.bad('C02-D4', f.qual, norm_text(c)[:80], 'a protocol session is started from a function that is not known to be guarded by a filter verdict', f.loc(c))
 
+    from .common import robots_after_verdict_rule
+    robots_after_verdict_rule(ctx, 'C02-D4')
+
     # ------------------------------------------------------------------ D6
     from .common import child_record_rules
     ck.rule('C02-D6', 'link records carry the depth / inline depth / parent / root the filters rely on: add_child_url and '
